@@ -19,26 +19,12 @@ theorem tendonTorqueAngle1_spec (a : α) (c : Curve α) (h : Factory.tendonTorqu
       ∃ kx ky km, c.CornerBuilt kx ky km) :=
   tendonTorqueAngle_spec a _ _ _ c h (by grind)
 
-/-- `createPassiveTorqueAngleCurve` (2-argument overload): the stiffness 4.6/(angle range) exceeds 1 in
-    magnitude iff the range is below 4.6 rad -/
-theorem passiveTorqueAngle2_spec (z o : α) (c : Curve α) (h : Factory.passiveTorqueAngle2 z o = some c)
-    (hne : o ≠ z) (hH : absα (o - z) < 46/10) : c.WF ∧ ∃ kx ky km, c.CornerBuilt kx ky km := by
-  apply passiveTorqueAngle_spec z o _ _ _ c h
-  have hd : o - z ≠ 0 := by grind
-  have e : (46/10)/(o - z) * (o - z) = 46/10 := by grind
-  generalize (46/10)/(o - z) = k at e
-  rcases absα_cases (o - z) with ⟨a, b⟩ | ⟨a, b⟩ <;> rcases absα_cases k with ⟨a', b'⟩ | ⟨a', b'⟩ <;>
-    rw [b'] <;> rw [b] at hH
-  · by_cases c1 : -k > 1
-    · exact c1
-    · have := OrderedRing.mul_le_mul_of_nonpos_right (show -1 ≤ k by grind) (show o - z ≤ 0 by grind)
-      grind
-  · have := OrderedRing.mul_nonpos_of_nonneg_of_nonpos a' (show o - z ≤ 0 by grind); grind
-  · have := OrderedRing.mul_nonpos_of_nonpos_of_nonneg (show k ≤ 0 by grind) a; grind
-  · by_cases c1 : k > 1
-    · exact c1
-    · have := OrderedRing.mul_le_mul_of_nonneg_right (show k ≤ 1 by grind) a
-      grind
+/-- `createPassiveTorqueAngleCurve` (2-argument overload) -/
+theorem passiveTorqueAngle2_spec (z o : α) (c : Curve α) (h : Factory.passiveTorqueAngle2 z o = some c) :
+    (z < o → c.WF) ∧
+    (absα (o - z) * rootEPS < 2/10 → c.WF ∧ ∃ kx ky km, c.CornerBuilt kx ky km) := by
+  obtain ⟨a, b⟩ := passiveTorqueAngle_spec z o _ _ _ c h
+  exact ⟨a, fun hh => b (Or.inr hh)⟩
 end order
 
 /-! ### accepted calls with a well-formed result (non-vacuity of the hypotheses) -/
@@ -56,11 +42,21 @@ theorem exTT1 : (Factory.tendonTorqueAngle1 (1/2:Rat)).isSome = true ∧ 6 * (1/
   decide +kernel
 theorem exDB : (Factory.dampingBlending (1/2:Rat)).isSome = true ∧
     (Factory.dampingBlending (-1/2:Rat)).isSome = true := by decide +kernel
-theorem exPT : (Factory.passiveTorqueAngle (0:Rat) 2 (1/10) 2 (1/2)).isSome = true ∧ absα (2:Rat) > 1 ∧
-    (Factory.passiveTorqueAngle (2:Rat) 0 (-1/10) (-2) (1/2)).isSome = true ∧ absα (-2:Rat) > 1 := by
+theorem exPT : (Factory.passiveTorqueAngle (0:Rat) 2 (1/10) 2 (1/2)).isSome = true ∧ (0:Rat) < 2 ∧
+    (Factory.passiveTorqueAngle (2:Rat) 0 (-1/10) (-2) (1/2)).isSome = true ∧
+    absα ((0:Rat) - 2) * rootEPS < 2/10 := by
   decide +kernel
-theorem exPT2 : (Factory.passiveTorqueAngle2 (0:Rat) 1).isSome = true ∧ (1:Rat) ≠ 0 ∧
-    absα ((1:Rat) - 0) < 46/10 := by decide +kernel
+theorem exPT2 : (Factory.passiveTorqueAngle2 (0:Rat) 1).isSome = true ∧ (0:Rat) < 1 ∧
+    absα ((1:Rat) - 0) * rootEPS < 2/10 := by decide +kernel
+
+/-- `createPassiveTorqueAngleCurve(0, 2, 0, 0.6, 0.5)` with the repaired toe width (these parameters
+    gave the discontinuous curve `badPT` below before the repair): well-formed, non-decreasing
+    control polygons, non-degenerate corners -/
+def goodPT : Curve Rat := (Factory.passiveTorqueAngle (0:Rat) 2 0 (6/10) (1/2)).getD default
+theorem goodPT_spec : Factory.passiveTorqueAngle (0:Rat) 2 0 (6/10) (1/2) = some goodPT ∧ goodPT.WF ∧
+    absα ((0:Rat) - 6/10) > rootEPS ∧ goodPT.nseg = 2 ∧ (goodPT.segY 0).Mono ∧ (goodPT.segY 1).Mono ∧
+    (goodPT.segX 0).p0 = 0 ∧ (goodPT.segX 0).p5 = 1/10 ∧ goodPT.calcIndex goodPT.x0 = some 0 ∧
+    goodPT.eval goodPT.x0 0 = some goodPT.y0 := by decide +kernel
 
 /-! ### accepted calls whose result is NOT well-formed (the extra hypotheses are needed) -/
 
@@ -89,12 +85,63 @@ theorem badTF_spec : Factory.tendonForceLength (100000000:Rat) (1/50000000) (1/2
     ¬ badTF.WF ∧ badTF.dydx0 = 0 ∧ derivDYDX 0 (badTF.segX 0) (badTF.segY 0) 1 = 1/385000000 := by
   decide +kernel
 
-/-- `createPassiveTorqueAngleCurve(0, 2, 0, 0.6, 0.5)`: inside the documented domain
+/-- `createPassiveTorqueAngleCurve` repaired, decreasing orientation, angle range 2^26 rad: the corner
+    between the two sections is degenerate (|kLow - kOne| ≤ sqrt(eps)) and the reported `dydx0` is not
+    the slope at `x0` -/
+def badPTdeg : Curve Rat :=
+  (Factory.passiveTorqueAngle (67108864:Rat) 0 (-4/335544320) (-3/134217728) (1/2)).getD default
+theorem badPTdeg_spec :
+    Factory.passiveTorqueAngle (67108864:Rat) 0 (-4/335544320) (-3/134217728) (1/2) = some badPTdeg ∧
+    ¬ badPTdeg.WF ∧ badPTdeg.dydx0 = -3/134217728 ∧
+    derivDYDX 0 (badPTdeg.segX 0) (badPTdeg.segY 0) 1 = -3/159383552 := by decide +kernel
+
+/-- the same in the increasing orientation: well-formed, but the slope jumps at the interior knot (the
+    sections are not corner sections, the curve is not C1 there) -/
+def badPTinc : Curve Rat :=
+  (Factory.passiveTorqueAngle (0:Rat) 67108864 (4/335544320) (3/134217728) (1/2)).getD default
+theorem badPTinc_spec :
+    Factory.passiveTorqueAngle (0:Rat) 67108864 (4/335544320) (3/134217728) (1/2) = some badPTinc ∧
+    badPTinc.WF ∧ derivDYDX 1 (badPTinc.segX 0) (badPTinc.segY 0) 1 = 1/83886080 ∧
+    derivDYDX 0 (badPTinc.segX 1) (badPTinc.segY 1) 1 = 107/12750684160 := by decide +kernel
+
+/-- `createPassiveTorqueAngleCurve` BEFORE the repair of the toe width (D21): the definition of
+    `Rbdl/Geom/Factories.lean` without the line `if delta0 ≤ 0 then 0.05 |x1 - x0|` -/
+def passiveTorqueAngleOld {α : Type} [Field α] [Inhabited α] [LT α] [LE α] [DecidableLT α] [DecidableLE α]
+    (angleAtZeroTorque angleAtOneNormTorque stiffnessAtLowTorque stiffnessAtOneNormTorque curviness : α) :
+    Option (Curve α) := do
+  if absα (angleAtOneNormTorque - angleAtZeroTorque) ≤ rootEPS then none
+  if absα stiffnessAtLowTorque > ((9/10)/absα (angleAtOneNormTorque-angleAtZeroTorque)) then none
+  if absα stiffnessAtOneNormTorque < ((11/10)/absα (angleAtOneNormTorque-angleAtZeroTorque)) then none
+  if stiffnessAtOneNormTorque*stiffnessAtLowTorque < 0 then none
+  if stiffnessAtOneNormTorque*(angleAtOneNormTorque-angleAtZeroTorque) < 0 then none
+  if curviness < 0 ∨ curviness > 1 then none
+  let (x0, x1, y0, y1, dydx0, dydx1) : α × α × α × α × α × α :=
+    if angleAtZeroTorque < angleAtOneNormTorque then
+      (angleAtZeroTorque, angleAtOneNormTorque, 0, 1, 0, stiffnessAtOneNormTorque)
+    else
+      (angleAtOneNormTorque, angleAtZeroTorque, 1, 0, stiffnessAtOneNormTorque, 0)
+  let c := scaleCurviness curviness
+  if !(absα stiffnessAtOneNormTorque > rootEPS) then none
+  let delta0 := minα ((1/10)*(1-absα (1/stiffnessAtOneNormTorque))) ((5/100)*absα (x1-x0))
+  let delta := if stiffnessAtOneNormTorque < 0 then delta0 * (-1) else delta0
+  let xLow := angleAtZeroTorque + delta
+  let xFoot := angleAtZeroTorque + (1/2)*(xLow-angleAtZeroTorque)
+  let yFoot : α := 0
+  let yLow := yFoot + stiffnessAtLowTorque*(xLow-xFoot)
+  let p0 ← cornerCP x0 y0 dydx0 xLow yLow stiffnessAtLowTorque c
+  let p1 ← cornerCP xLow yLow stiffnessAtLowTorque x1 y1 dydx1 c
+  pure (Curve.ofSections [p0, p1] x0 x1 y0 y1 dydx0 dydx1)
+
+/-- the old and the repaired definition agree for `|stiffnessAtOneNormTorque| > 1` (instance) -/
+theorem old_eq_new_instance : passiveTorqueAngleOld (0:Rat) 2 (1/10) 2 (1/2) =
+    Factory.passiveTorqueAngle (0:Rat) 2 (1/10) 2 (1/2) := by decide +kernel
+
+/-- OLD `createPassiveTorqueAngleCurve(0, 2, 0, 0.6, 0.5)`: inside the documented domain
     (0.6 ≥ 1.1/2), but `1 - |1/k| < 0` makes the toe width negative: the first section runs BACKWARDS
     from x = 0 to x = -1/15, outside `[x0, x1]`; `calcIndex(x0)` selects the second section, whose
     value at x0 is not y0: the function is discontinuous at x0 -/
-def badPT : Curve Rat := (Factory.passiveTorqueAngle (0:Rat) 2 0 (6/10) (1/2)).getD default
-theorem badPT_spec : Factory.passiveTorqueAngle (0:Rat) 2 0 (6/10) (1/2) = some badPT ∧ ¬ badPT.WF ∧
+def badPT : Curve Rat := (passiveTorqueAngleOld (0:Rat) 2 0 (6/10) (1/2)).getD default
+theorem badPT_spec : passiveTorqueAngleOld (0:Rat) 2 0 (6/10) (1/2) = some badPT ∧ ¬ badPT.WF ∧
     badPT.x0 = 0 ∧ (badPT.segX 0).p0 = 0 ∧ (badPT.segX 0).p5 = -1/15 ∧ badPT.calcIndex badPT.x0 = some 1 ∧
     (badPT.segX 1).p0 = -1/15 := by decide +kernel
 
